@@ -44,8 +44,10 @@ def replay(prop, path):
     if rep["job"].get("kind") == "cli":
         from . import docs_main
 
-        res = pool.run_jobs([rep["job"]], chunksize=1, procs=1)
+        pair = [rep["job"]] + ([rep["job"]["truncated_job"]] if rep["job"].get("truncated_job") else [])
+        res = pool.run_jobs(pair, chunksize=1, procs=1)
         traces = [t for t in docs_main.ledger_traces(res[0]) if t["meta"]["runs"][0]["asset"] == rep["job"].get("asset_judged")]
+        docs_main.attach_truncated(res, traces)
         if not traces:
             print("the end-to-end run did not complete:", res[0]["res"].get("errors"))
             print(f"VIOLATION property={prop} replay={path}")
@@ -54,7 +56,7 @@ def replay(prop, path):
         traces = pool.run_jobs([rep["job"]], chunksize=1, procs=1)
     verdicts, _, _ = tlc.validate_traces(traces, shards=1)
     mine = [(c, l) for c, l in verdicts[0] if c.startswith(prop + ".")]
-    print(json.dumps({"history": rep["job"]["h"], "config": rep["job"]["c"], "failing_clauses": verdicts[0], "messages": traces[0]["meta"]["msgs"]}, indent=1))
+    print(json.dumps({"history": rep["job"].get("h") or rep["job"].get("assets"), "config": rep["job"].get("c") or rep["job"].get("args"), "failing_clauses": verdicts[0], "messages": traces[0]["meta"]["msgs"]}, indent=1))
     if mine:
         print(f"VIOLATION property={prop} replay={path}")
         return 1
@@ -114,6 +116,7 @@ def run(prop, tier):
     cli_jobs, cli_stats = docs_main.cli_ledger_jobs(prop, tier, rnd)
     cli_results = pool.run_jobs(cli_jobs, chunksize=2)
     cli_traces = [t for r in cli_results for t in docs_main.ledger_traces(r)]
+    docs_main.attach_truncated(cli_results, cli_traces)
     incomplete = [r for r in cli_results if r["res"]["exit"] != 0]
     traces += cli_traces
     nruns += len(cli_results)
